@@ -429,6 +429,14 @@ VariablesStack::findXObject(
                                 executionContext,
                                 *theRootNodeList);
 
+                    // Nor does a restriction of the place of use to text nodes
+                    // (the content of xsl:attribute, xsl:comment or
+                    // xsl:processing-instruction) apply to a result tree
+                    // fragment the variable builds.
+                    const StylesheetExecutionContext::SetAndRestoreCopyTextNodesOnly   theSetAndRestoreCopyTextNodesOnly(
+                                executionContext,
+                                false);
+
                     theNewValue = var->getValue(executionContext, doc);
                 }
                 assert(theNewValue.null() == false);
